@@ -85,6 +85,8 @@ pub struct Sim {
     pub crashes: Vec<String>,
     pub request: Option<u64>,
     pub outcome: Option<Outcome>,
+    /// the raw value (with its heap) behind `outcome`, when it is a value
+    pub raw_outcome: Option<(Value, Vec<Vec<u8>>)>,
     pub schedule: Vec<Step>,
     pub steps_done: usize,
 }
@@ -295,6 +297,7 @@ impl Sim {
             crashes: Vec::new(),
             request: None,
             outcome: None,
+            raw_outcome: None,
             schedule: Vec::new(),
             steps_done: 0,
         }
@@ -307,6 +310,7 @@ impl Sim {
     /// Compile and submit a line to the REPL process.  Returns false if nothing will run.
     pub fn submit(&mut self, source: &str) -> bool {
         self.outcome = None;
+        self.raw_outcome = None;
         self.request = None;
         let r = catch_unwind(AssertUnwindSafe(|| {
             self.repl.evaluate(&mut self.env, source, HashMap::new())
@@ -561,6 +565,7 @@ impl Sim {
         if let Some(id) = self.request {
             let program = self.env.get_program().clone();
             if let Ok(Some(RequestResult::Result(r, _))) = self.env.poll_request(id) {
+                self.raw_outcome = r.as_ref().ok().cloned();
                 self.outcome = Some(match r {
                     Ok((v, heap)) => Outcome::Value(pv(&program, &heap, &v)),
                     Err(e) => Outcome::RuntimeError(err_class(&e)),
